@@ -399,7 +399,7 @@ class PredictionSuite(Suite):
              'known:c19-prediction-resolves-live-rules': 'known_resolves_rules'}
     shard_size = 80
     quick_cases = 1100
-    thorough_cases = 20000
+    thorough_cases = 12000
 
     def generate(self, rng, tier):
         n = self.quick_cases if tier == 'quick' else self.thorough_cases
